@@ -20,7 +20,7 @@ OK, VIOLATION, UNRESOLVED, INFO = "OK", "VIOLATION", "UNRESOLVED", "INFO"
 # suppressed exception, a numpy name that does not exist, a twice-consumed iterator): they judge new code as well as old.
 # Every other rule reads a fact off code it knows and gives no verdict in a function that was restructured.
 UNGATED = {"R-PAIR", "R-SINCOS", "R-RTOLPOS", "R-INPLACE", "R-CG", "R-MEMO", "R-ORDER", "R-CACHEKEY", "R-STATE", "R-ACCUM", "R-NARROW", "R-RTOL", "R-SORTED", "R-OPTION", "R-EXC",
-           "R-API", "R-ITER", "R-LATEBIND", "R-ROOTPOS", "R-ZEROLEN", "R-ONE2ONE", "R-DIST", "R-GLOB", "R-RELABEL", "R-AXISKIND", "R-SLICES", "R-ROWSLICE", "R-FALSY", "R-ROUNDS", "R-SHARED", "R-ATOL", "R-SEQ", "R-COMMENT", "R-DOUBLING", "R-INPLACEPERM", "R-ENDPOINTS", "R-ALLROWS", "R-OWNLIST", "R-STALE", "R-NEGIDX", "R-SUBORDER", "R-SHOLLCHAIN", "R-NORMAXIS", "R-STARTGUARD", "R-LIFO", "R-TRIMPOS", "R-CELLCONST", "R-ROWTEXT", "R-LOOPVAR", "R-BIFVAL", "R-DEGENERATE", "R-EACHOWNER", "R-COLOURLINK", "R-COUNTVAL", "R-PROPAGATE", "R-ALLPAIRS", "R-COINCIDE", "R-TYPESWAP", "R-CHANAXIS", "R-SPLITLINES", "R-ITER2", "R-COPYDEEP", "R-ABSPREC", "R-BRANCHVAL", "R-TOTALSRC", "R-CLIP", "R-PATHIO", "R-FRAMECAST", "R-EMPTYIDX", "R-FRESHNODE", "R-SQDTYPE", "R-ALLCOLS", "R-COLNAME", "R-CHAINSRC", "R-OUTARG", "R-NUMLANG", "R-REPR", "R-AXISSIGN", "R-CHORD", "R-BUFDTYPE", "R-SOMACAST", "R-CONNDEF", "R-CHAINVAL", "R-DISPATCH", "R-ORDERKIND", "R-SHOLLARG", "R-NAMESFWD", "R-OUTCLEAR", "R-OPAQUE", "R-IDXGUARD"}
+           "R-API", "R-ITER", "R-LATEBIND", "R-ROOTPOS", "R-ZEROLEN", "R-ONE2ONE", "R-DIST", "R-GLOB", "R-RELABEL", "R-AXISKIND", "R-SLICES", "R-ROWSLICE", "R-FALSY", "R-ROUNDS", "R-SHARED", "R-ATOL", "R-SEQ", "R-COMMENT", "R-DOUBLING", "R-INPLACEPERM", "R-ENDPOINTS", "R-ALLROWS", "R-OWNLIST", "R-STALE", "R-NEGIDX", "R-SUBORDER", "R-SHOLLCHAIN", "R-NORMAXIS", "R-STARTGUARD", "R-LIFO", "R-TRIMPOS", "R-CELLCONST", "R-ROWTEXT", "R-LOOPVAR", "R-TRAVVAL", "R-BIFVAL", "R-DEGENERATE", "R-EACHOWNER", "R-COLOURLINK", "R-COUNTVAL", "R-PROPAGATE", "R-ALLPAIRS", "R-COINCIDE", "R-TYPESWAP", "R-CHANAXIS", "R-SPLITLINES", "R-ITER2", "R-COPYDEEP", "R-ABSPREC", "R-BRANCHVAL", "R-TOTALSRC", "R-CLIP", "R-PATHIO", "R-FRAMECAST", "R-EMPTYIDX", "R-FRESHNODE", "R-SQDTYPE", "R-ALLCOLS", "R-COLNAME", "R-CHAINSRC", "R-OUTARG", "R-NUMLANG", "R-REPR", "R-AXISSIGN", "R-CHORD", "R-BUFDTYPE", "R-SOMACAST", "R-CONNDEF", "R-CHAINVAL", "R-DISPATCH", "R-ORDERKIND", "R-SHOLLARG", "R-NAMESFWD", "R-OUTCLEAR", "R-OPAQUE", "R-IDXGUARD"}
 EDIT_GATE = 8  # statements (added + removed) beyond which a function counts as restructured; see Collector.add
 
 
